@@ -37,6 +37,8 @@ pub fn programs13() -> Vec<Prog> {
     p.push(None, Stmt::Fill(Lit::hex(0x5678)));
     p.items.push(Item::Break);
     v.push(Prog::new("crossing-xFE00", p, true));
+    // origin x0000: sums below zero have nothing to wrap or saturate into but user space
+    v.push(mk("at-x0000", Some(0x0000)));
     v
 }
 
@@ -111,7 +113,7 @@ pub fn workload(tier: Tier, progs: &[Prog]) -> Vec<Work> {
         }
     }
     // B: label +/- offset and ^offset at the boundaries, from every pre-history (different PCs)
-    for (pi, p) in progs.iter().enumerate().take(4) {
+    for (pi, p) in progs.iter().enumerate().filter(|(i, _)| *i != 4) {
         let orig = p.image.origin() as i32;
         let mut offs = offsets();
         // offsets that land exactly on origin-1, origin, xFDFF, xFE00 from the labels / PCs
